@@ -16,10 +16,13 @@ EXTENDS Integers, Sequences, FiniteSets, TLC, Json, IOUtils
 VEC_L == 1   VEC_R == 2   ARR_L == 3   CARR_L == 4   LIST_L == 5   LIST_R == 6
 GEN_R == 7   PTR == 8     VEC_IT == 9  LIST_IT == 10 MOVE_IT == 11
 REV_IT == 12        \* std::reverse_iterator over a std::vector: random access, but NOT contiguous in iteration order
-Forms == 1..12
-RangeForms    == {VEC_L, VEC_R, ARR_L, CARR_L, LIST_L, LIST_R, GEN_R}
+\* non-owning views (std::span / std::ranges::subrange in C++20 builds, hand-written views in C++17 builds): ranges
+\* like any other - an lvalue view is left alone, an rvalue view is an rvalue range and its items are moved from
+VIEW_L == 13        VIEW_R == 14        SUB_R == 15
+Forms == 1..15
+RangeForms    == {VEC_L, VEC_R, ARR_L, CARR_L, LIST_L, LIST_R, GEN_R, VIEW_L, VIEW_R, SUB_R}
 IteratorForms == {PTR, VEC_IT, LIST_IT, MOVE_IT, REV_IT}        \* need a FixedSize parameter: the count comes from it
-RvalueForms   == {VEC_R, LIST_R, MOVE_IT}               \* the items may (and for non-trivial types must) be moved from
+RvalueForms   == {VEC_R, LIST_R, MOVE_IT, VIEW_R, SUB_R}               \* the items may (and for non-trivial types must) be moved from
 StoredForms   == Forms \ {GEN_R}                         \* forms whose items live in a container we can inspect
 
 (* source type -> stored type *)
